@@ -929,3 +929,100 @@ func derefGlobal(v ssa.Value) (string, bool) {
 }
 
 var _ = sort.Strings
+
+// checkMemoKeyIsArgument: a memo table that stands in for a call — the result
+// of g(a…) is stored under m[k] and a hit on m[k] is returned instead of
+// calling g — is sound only when k determines the arguments. The rule looks at
+// every map insert whose value is (the first result of) a call made in the
+// same function: if the key is computed from one of that call's arguments by a
+// lossy text function (trim, case fold, cut, slice), two different arguments
+// share an entry and the second one gets the first one's result.
+func checkMemoKeyIsArgument(c *core.Ctx, r *core.Rule, prog *core.Prog, pkgs ...string) {
+	lossy := func(name string) bool {
+		switch name {
+		case "strings.TrimPrefix", "strings.TrimSuffix", "strings.TrimSpace", "strings.Trim", "strings.TrimLeft", "strings.TrimRight",
+			"strings.ToLower", "strings.ToUpper", "strings.Title", "strings.Cut", "strings.Split", "strings.SplitN", "strings.Fields",
+			"strings.Replace", "strings.ReplaceAll", "path.Base", "path.Clean", "path/filepath.Base", "path/filepath.Clean":
+			return true
+		}
+		return false
+	}
+	// derivedLossy: v is computed from arg through a lossy function / slice
+	var derivedLossy func(v, arg ssa.Value, depth int) string
+	derivedLossy = func(v, arg ssa.Value, depth int) string {
+		if depth > 5 || v == arg {
+			return ""
+		}
+		switch x := v.(type) {
+		case *ssa.Call:
+			name := core.CalleeName(x.Common())
+			for _, a := range x.Common().Args {
+				if a == arg && lossy(name) {
+					return name
+				}
+				if a != arg {
+					if via := derivedLossy(a, arg, depth+1); via != "" {
+						return via
+					}
+				}
+			}
+		case *ssa.Extract:
+			return derivedLossy(x.Tuple, arg, depth+1)
+		case *ssa.Slice:
+			if x.X == arg {
+				return "a slice expression"
+			}
+			return derivedLossy(x.X, arg, depth+1)
+		case *ssa.Phi:
+			for _, e := range x.Edges {
+				if via := derivedLossy(e, arg, depth+1); via != "" {
+					return via
+				}
+			}
+		}
+		return ""
+	}
+	n := 0
+	for _, pp := range pkgs {
+		pkg := prog.ByPath[pp]
+		if pkg == nil {
+			continue
+		}
+		for _, top := range core.PkgFuncs(prog.SSA, pkg) {
+			for _, fn := range core.AllFuncs(top) {
+				for _, b := range fn.Blocks {
+					for _, in := range b.Instrs {
+						mu, ok := in.(*ssa.MapUpdate)
+						if !ok {
+							continue
+						}
+						var call *ssa.Call
+						switch v := mu.Value.(type) {
+						case *ssa.Call:
+							call = v
+						case *ssa.Extract:
+							call, _ = v.Tuple.(*ssa.Call)
+						}
+						if call == nil || call.Parent() != fn {
+							continue
+						}
+						n++
+						bad := ""
+						var which ssa.Value
+						for _, a := range call.Common().Args {
+							if via := derivedLossy(mu.Key, a, 0); via != "" {
+								bad, which = via, a
+							}
+						}
+						if bad == "" {
+							r.Ob(true, "")
+							continue
+						}
+						r.Fail(fmt.Sprintf("memo-key-lossy:%s:%s", fnKeyFull(fn), core.CalleeName(call.Common())), c.Pos(mu.Pos()), fmt.Sprintf("the result of %s is stored under a key computed from its argument %s by %s: different arguments that collapse to one key share an entry, and the later one is answered with the earlier one's result", core.CalleeName(call.Common()), describeValue(which), bad))
+					}
+				}
+			}
+		}
+	}
+	r.Note("memoising map inserts examined: %d", n)
+}
